@@ -95,6 +95,11 @@ VIOL = [
     ("viol_clamp_length_negative", "v1", "r.v0.clamp_length(-1.0, 2.0)"),
     ("viol_clamp_length_min_gt_max", "v1", "r.v0.clamp_length(3.0, 1.0)"),
     ("viol_clamp_min_gt_max", "v1", "r.v0.clamp(Vec3::ONE, Vec3::ZERO)"),
+    # min > max in ONE lane only (the documented precondition is lane-wise: min <= max in every lane)
+    ("viol_clamp_one_lane", "v1", "r.v0.clamp(Vec3::new(-9.0, 5.0, -9.0), Vec3::new(9.0, 3.0, 9.0))"),
+    ("viol_iclamp_one_lane_i64", "s0", "I64Vec4::new(1, 2, 3, 4).clamp(I64Vec4::new(0, 0, 7, 0), I64Vec4::new(9, 9, 5, 9)).z as f32 + r.s0"),
+    ("viol_iclamp_one_lane_u8", "s0", "U8Vec2::new(1, 2).clamp(U8Vec2::new(7, 0), U8Vec2::new(5, 9)).x as f32 + r.s0"),
+    ("viol_iclamp_one_lane_i32", "s0", "IVec3::new(1, 2, 3).clamp(IVec3::new(0, 0, 0), IVec3::new(9, -1, 9)).y as f32 + r.s0"),
     ("viol_from_quat_nonunit", "r0", "Mat3::from_quat(r.q0 * 1.5)"),
     ("viol_any_orthonormal_nonunit", "u1", "(r.u0 * 2.0).any_orthonormal_vector()"),
     ("viol_rotation_arc_nonunit", "q1", "Quat::from_rotation_arc(r.v0 * 2.0, r.u1)"),
